@@ -298,7 +298,7 @@ def _row_fn(row_fn, key):
     return key == row_fn or key.startswith(row_fn + "::{closure")
 
 
-DISCARDING = re.compile(r"^core::result::Result::<T, E>::(ok|unwrap_or|unwrap_or_else|unwrap_or_default|is_ok|is_err|or|or_else|map_or|map_or_else|iter|unwrap_err|expect_err|err)$")
+DISCARDING = re.compile(r"^core::result::Result::<T, E>::(ok|unwrap_or|unwrap_or_else|unwrap_or_default|is_ok|is_err|or|or_else|map_or|map_or_else|iter)$")
 DISCARD_TABLE = {
     ("<core::result::Result<T, syn::attr::Meta> as darling_core::from_meta::FromMeta>::from_meta", "*"): "Result<T, Meta> deliberately replaces the error by the original item (C12)",
     ("<darling_core::util::flag::Flag as darling_core::from_meta::FromMeta>::from_meta", "core::result::Result::<T, E>::unwrap_err"): "extracts the error of <()>::from_meta to return it (not discarded)",
@@ -333,6 +333,13 @@ def error_discipline(ctx, rule, bodies):
                 continue
             name = ci.get("resolved") or ci["fn"]
             if DISCARDING.match(name) and any(a == scan.ERR for a in ci.get("targs", [])[1:2]):
+                # `r.map_or_else(Error::write_errors, ..)` / `r.unwrap_or_else(handler_fn)`: the error is
+                # handed to a named function, not thrown away
+                if name.endswith(("::map_or_else", "::unwrap_or_else", "::or_else")) and len(t["args"]) >= 2:
+                    s_, _ = ctx.sym(b)
+                    a1 = s_.operand(t["args"][1])
+                    if a1[0] == "fnptr":
+                        continue
                 n += 1
                 ok = any(_row_fn(fn, b.key) and nm in ("*", name) for (fn, nm) in DISCARD_TABLE)
                 ctx.ob(rule + ".discard", b.key, name, ok, "error-discarding adapter on Result<_, darling::Error>")
